@@ -86,6 +86,13 @@ type Group struct {
 	ChildStack []byte
 	clockExtra int64
 
+	timers      []*simTimer
+	nextTimerAt int64
+	hasTimers   bool
+	timerSeq    uint64
+	TimersFired int
+	EnvReads    int
+
 	SiteExec  []int32 // executions per site
 	SiteExec2 []int32 // executions with >=2 keys
 	SitePerm  []int32 // non-identity permutations applied
@@ -127,6 +134,9 @@ type Task struct {
 	Goexit    bool
 	Finished  bool // body returned normally
 	LiveOthersAtEnd int
+	sels []*selState // select statements being evaluated (innermost last)
+	ats  []atEntry   // atomic operations whose end has not been marked yet
+	spin int         // consecutive scheduling points of kinds that busy-waiting loops are made of
 }
 
 var cur *Task
@@ -379,6 +389,11 @@ func (g *Group) tick(t *Task, code uint64, id int, isFn bool) {
 	}
 	if g.Ticks > g.cfg.TickBudget && g.cfg.TickBudget > 0 {
 		g.fail(BudgetExceeded{Kind: "ticks", Fn: t.busiestFrame()})
+	}
+	if g.hasTimers {
+		if now := g.nowNs(); now >= g.nextTimerAt {
+			g.fireDue(now)
+		}
 	}
 	if g.Ticks&0x3fff == 0 && g.cfg.ByteBudget > 0 {
 		var ms runtime.MemStats
@@ -803,20 +818,6 @@ func Now() time.Time {
 
 func Since(t0 time.Time) time.Duration { return Now().Sub(t0) }
 func Until(t0 time.Time) time.Duration { return t0.Sub(Now()) }
-
-func Sleep(d time.Duration) {
-	t := cur
-	if t == nil {
-		time.Sleep(d)
-		return
-	}
-	if d > 0 {
-		t.G.clockExtra += int64(d)
-	}
-	if sched != nil {
-		sched.yield(t)
-	}
-}
 
 func draw() uint64 {
 	t := cur
